@@ -562,12 +562,9 @@ func runOp(w *simrt.World, b *Built, op *Op, res *OpResult) {
 			res.FaultsFired = sink.Fired
 		} else {
 			w.Disk.WritePlan[op.File] = op.WFaults
-			if op.CrashAfter > 0 {
-				w.Disk.CrashAfter[op.File] = op.CrashAfter
-			} else {
-				delete(w.Disk.CrashAfter, op.File)
-			}
+			w.Disk.ArmCrash(op.CrashAfter) // bytes written to any file from now on; 0 = never
 			err := ip.WriteFile(op.File, flags.IniOptions(op.IniOpts))
+			w.Disk.ArmCrash(0)
 			classifyErr(err, res)
 		}
 	case "help":
